@@ -15,8 +15,8 @@ from harness import common as C
 from harness import leanio, symobj
 
 PROPERTY = "C07"
-LEAN_TARGETS = ["VectorModel.Props.C07", "VectorModel.Props.MethodBackends"]
-THEOREM_FILES = ["VectorModel/Props/C07.lean", "VectorModel/Props/MethodBackends.lean"]
+LEAN_TARGETS = ["VectorModel.Props.C07", "VectorModel.Props.MethodBackends", "VectorModel.Props.C14Fields"]
+THEOREM_FILES = ["VectorModel/Props/C07.lean", "VectorModel/Props/MethodBackends.lean", "VectorModel/Props/C14Fields.lean"]
 NEEDS_TRANSLATOR = True
 NOT_COVERED = ["the Numba compiler itself (LLVM code generation): the theorems are about which function is selected and how the result is wrapped",
                "Awkward arrays iterated inside compiled functions: sampled by three compile-and-run probes only"]
